@@ -9057,6 +9057,7 @@ class SVG(Group):
     def _resolve_transform(transform, ppi, width, height):
         """
         Gives the transform string with its lengths resolved to user units, if it has lengths with units.
+        A function whose lengths cannot be resolved (e.g. "1em") is in error and is ignored.
         """
         try:
             plain = Matrix(transform)
@@ -9064,12 +9065,16 @@ class SVG(Group):
                 return transform
         except ValueError:
             pass
-        try:
-            m = Matrix(transform, ppi=ppi, width=width, height=height)
-        except ValueError:
-            return transform
-        if isinstance(m.e, Length) or isinstance(m.f, Length):
-            return transform
+        m = Matrix()
+        for name, params in REGEX_TRANSFORM_TEMPLATE.findall(transform.lower()):
+            step = Matrix(m)
+            try:
+                step.parse("%s(%s)" % (name, params), ppi=ppi, width=width, height=height)
+            except ValueError:
+                continue
+            if isinstance(step.e, Length) or isinstance(step.f, Length):
+                continue
+            m = step
         return "matrix(%r, %r, %r, %r, %r, %r)" % (m.a, m.b, m.c, m.d, m.e, m.f)
 
     @staticmethod
